@@ -153,7 +153,7 @@ class C14(Check):
             parties.append(actors.Importer(rs["imp%d" % k], cfg, b))
             parties.append(actors.Editor(rs["edit%d" % k], cfg, b))
         weights = {"importer": 2.0, "editor": 0.8}
-        nsteps = r.choice([0, 1, 3, 6, 12, 25])
+        nsteps = r.choice([0, 1, 3, 6, 12, 25] + ([50, 100] if tier == "thorough" else []))
         steps += [s for s in actors.schedule(rs["sched"], parties, weights, nsteps) if s["op"] != "replace_last"]
         br = rs["big"]
         if br.random() < 0.08:
